@@ -154,6 +154,8 @@ def optimize_contract_finitary_funsor(red_op, bin_op, reduced_vars, terms):
         frozenset(d for (d, count) in reduce_dim_counter.items() if count > 0)
         & reduced_vars
     )
+    # reduced variables that no term mentions still scale the result
+    final_reduced_vars |= reduced_vars - frozenset().union(*inputs)
     if final_reduced_vars:
         path_end = path_end.reduce(red_op, final_reduced_vars)
     return path_end
